@@ -601,7 +601,7 @@ impl<'a, H: HashAlgorithm> Exec<'a, H> {
             if self.scen.checks.multiproof { self.check_multiproof(&proofs, &st, &trie, self.scen.run_seed.wrapping_add(self.step as u64))?; }
         }
         if self.scen.checks.decode || self.scen.checks.accounting { self.check_decode()?; }
-        if self.scen.checks.rules { self.check_rules()?; }
+        if self.scen.checks.rules && std::env::var("SIM_NO_RULES").is_err() { self.check_rules()?; }
         if let Some(every) = self.scen.extra.get("rollback_history_every").and_then(|x| x.as_u64()) {
             if every > 0 && (self.step as u64 + 1) % every == 0 { let p = self.prop.clone(); self.check_rollback_history(&p)?; }
         }
